@@ -588,6 +588,9 @@ class Body:
                     t = t[3][p[1]]
                 elif t[0] == "agg" and t[1] == "adt" and not isinstance(p[2], int) and p[2] in t[4]:
                     t = t[3][t[4].index(p[2])]
+                elif t[0] == "field" and t[2] in getattr(self.facts, "wrapper_fields", {}) and p[2] in self.facts.wrapper_fields[t[2]]:
+                    # `self.inner.local` where `inner` only wraps what used to be the struct's own fields (Facts._compute_wrappers)
+                    t = ("field", t[1], p[2])
                 else:
                     t = ("field", t, p[2])
             elif k == "index":
@@ -662,6 +665,14 @@ class Body:
             ops = tuple(self.term_operand(o) for o in rv["ops"])
             a = rv["agg"]
             if a == "adt":
+                w = getattr(self.facts, "wrappers", {}).get(rv["adt"])
+                if w is not None and len(ops) >= 1:
+                    # Outer { inner: Inner { a, b } }  ->  Outer { a, b }
+                    wi = list(rv["fields"]).index(w[0]) if w[0] in rv["fields"] else None
+                    it = peel(ops[wi], transparent=[]) if wi is not None else None
+                    if isinstance(it, tuple) and it and it[0] == "agg" and it[1] == "adt" and it[2].startswith(w[1] + "::"):
+                        rest = [(o_, n_) for o_, n_ in zip(ops, rv["fields"]) if n_ != w[0]]
+                        return ("agg", "adt", rv["adt"] + "::" + rv["variant"], tuple(o_ for o_, _ in rest) + tuple(it[3]), tuple(n_ for _, n_ in rest) + tuple(it[4]))
                 return ("agg", "adt", rv["adt"] + "::" + rv["variant"], ops, tuple(rv["fields"]))
             if a == "closure":
                 return ("agg", "closure", rv["def"], ops, ())
@@ -955,12 +966,75 @@ class Facts:
             if not (body.path in absorbed or any(body.path.startswith(h + "::{") for h in absorbed)):
                 self.order.append(k)
         self.adts = {a["path"]: a for a in raw["adts"]}
+        self._compute_wrappers()
         self.impls = raw["impls"]
         self.consts = {c["path"]: c for c in raw["consts"]}
         self.macros = raw["macros"]
         self.aliases = {a["path"]: a for a in raw["aliases"]}
         self._cg = None
         self._trait_impls = None
+
+    def _compute_wrappers(self):
+        """A struct of the pinned tree whose fields were moved into ONE new private struct it now holds (`struct GenericLocalCounterVec { inner: LocalChildren<..> }`)
+        is looked at as if it still had those fields itself: wrappers = {outer adt path: (wrapper field name, inner adt path, inner field names)}.
+        `new` = not in the ADT table frozen with the baseline."""
+        self.wrappers = {}
+        self.wrapper_fields = {}
+        try:
+            from . import inline
+            import json as _json, os as _os
+            base = _json.load(open(_os.path.join(_os.path.dirname(_os.path.dirname(_os.path.abspath(__file__))), "baseline_fns.json")))
+            known = set(base.get("adts") or [])
+        except Exception:  # noqa
+            known = set()
+        if not known or self.crate != "prometheus":
+            return
+        for p, a in list(self.adts.items()):
+            if p not in known or a.get("kind") != "Struct" or len(a["variants"]) != 1:
+                continue
+            fs = [x for x in a["variants"][0]["fields"] if "PhantomData" not in x["ty"]]
+            if len(fs) != 1:
+                continue
+            ity = re.sub(r"<.*$", "", fs[0]["ty"])
+            inner = self.adts.get(ity)
+            if inner is None or ity in known or inner.get("kind") != "Struct" or len(inner["variants"]) != 1 or inner.get("vis") == "pub":
+                continue
+            names = [x["name"] for x in inner["variants"][0]["fields"]]
+            self.wrappers[p] = (fs[0]["name"], ity, names)
+            self.wrapper_fields.setdefault(fs[0]["name"], set()).update(names)
+            # the outer type as rules see it: the inner type's fields in place of the wrapper field (type parameters of the inner type are not substituted)
+            flat = dict(a)
+            v0 = dict(a["variants"][0])
+            # type parameters of the inner type are replaced by the arguments the wrapper field instantiates it with (top-level split of `Inner<A, B>`)
+            gens = inner.get("generics") or []
+            argstr = fs[0]["ty"][len(ity):].strip()
+            targs = []
+            if argstr.startswith("<") and argstr.endswith(">"):
+                depth, cur = 0, ""
+                for ch in argstr[1:-1]:
+                    if ch in "<([":
+                        depth += 1
+                    elif ch in ">)]":
+                        depth -= 1
+                    if ch == "," and depth == 0:
+                        targs.append(cur.strip())
+                        cur = ""
+                    else:
+                        cur += ch
+                if cur.strip():
+                    targs.append(cur.strip())
+            targs = [t_ for t_ in targs if not t_.startswith("'")]
+
+            def subst_ty(ty_):
+                if len(gens) != len(targs):
+                    return ty_
+                for g_, a_ in zip(gens, targs):
+                    ty_ = re.sub(r"(?<![A-Za-z0-9_:])%s(?![A-Za-z0-9_])" % re.escape(g_), a_.replace("\\", "\\\\"), ty_)
+                return ty_
+            v0["fields"] = [x for x in a["variants"][0]["fields"] if x is not fs[0]] + [dict(x, ty=subst_ty(x["ty"])) for x in inner["variants"][0]["fields"]]
+            flat["variants"] = [v0]
+            flat["flattened_from"] = ity
+            self.adts[p] = flat
 
     def body(self, path):
         """Exact path, else unique suffix match; None when absent."""
